@@ -17,11 +17,12 @@
 //! a try_* succeed whenever the contract state allows it (the contract does not say that a try must
 //! respect the queue).
 //!
-//! Weakened model (recorded findings, selected per program by `PlCfg::sel`):
-//!   bit 1 — F7: `downgrade_to_upgradable` *acquires* the upgradable slot (blocking) before it gives
+//! Weakened model (recorded findings; `PlCfg::sel` names the one a program's weakened model adds as an
+//! alternative behaviour, `PlCfg::allow` the one its reference model already admits — see `mk`):
+//!   1 — F7: `downgrade_to_upgradable` *acquires* the upgradable slot (blocking) before it gives
 //!           up exclusive access; the slot may be held by an upgradable request that is itself
 //!           queued behind the writer => both block forever.
-//!   bit 2 — F8: `upgrade` queues its request for exclusive access at the BACK of the FIFO and gives
+//!   2 — F8: `upgrade` queues its request for exclusive access at the BACK of the FIFO and gives
 //!           up its shared access; a writer that was already waiting is served first.
 
 use shuttle_parking_lot_impl as pl;
@@ -91,9 +92,14 @@ pub enum Kind {
 #[derive(Clone, Debug)]
 pub struct PlCfg {
     pub objs: Vec<Kind>,
-    /// which recorded findings the weakened model of this program contains (bit 1 = F7, bit 2 = F8);
+    /// which recorded finding the weakened model of this program adds (1 = F7, 2 = F8, 0 = none);
     /// derived from the operations that occur in the program
     pub sel: u8,
+    /// recorded findings that are part of this program's *reference* model.  Non-zero only for
+    /// programs that contain both conversions: such a program is generated twice, once attributing
+    /// F7 (with F8 allowed) and once attributing F8 (with F7 allowed), so that every deviation is
+    /// reported under exactly the finding it belongs to.
+    pub allow: u8,
 }
 
 pub enum Obj {
@@ -131,6 +137,8 @@ pub enum QK {
     /// upgrade announced, own shared access not yet traded in
     UpWait,
     Up,
+    /// F8 variant of the two: queued at the back, shared access given up while waiting
+    UpWaitBack,
 }
 
 #[derive(Clone, Debug, PartialEq, Eq, Hash)]
@@ -166,7 +174,7 @@ impl Lk {
             QK::S => self.writer.is_none(),
             QK::U => self.writer.is_none() && self.upg.is_none(),
             QK::X => self.writer.is_none() && self.readers.is_empty() && self.upg.is_none(),
-            QK::UpWait => false,
+            QK::UpWait | QK::UpWaitBack => false,
             QK::Up => self.writer.is_none() && self.readers.is_empty() && (self.upg.is_none() || self.upg == Some(t)),
         }
     }
@@ -182,7 +190,7 @@ impl Lk {
                 self.writer = Some(t);
                 self.upg = None;
             }
-            QK::UpWait => unreachable!(),
+            QK::UpWait | QK::UpWaitBack => unreachable!(),
         }
         self.check();
     }
@@ -223,11 +231,11 @@ impl Lk {
 pub struct PlM {
     l: Vec<Lk>,
     sel: u8,
+    allow: u8,
 }
 
 pub const F7_NAME: &str = "downgrade_to_upgradable-waits-for-the-upgradable-slot-held-by-a-queued-upgradable-reader";
 pub const F8_NAME: &str = "upgrade-queues-behind-an-already-waiting-writer";
-pub const F78_NAME: &str = "downgrade_to_upgradable-waits-for-the-upgradable-slot-held-by-a-queued-upgradable-reader+upgrade-queues-behind-an-already-waiting-writer";
 
 pub struct PlFam;
 
@@ -334,7 +342,6 @@ impl Family for PlFam {
         match cfg.sel {
             1 => Some(F7_NAME),
             2 => Some(F8_NAME),
-            3 => Some(F78_NAME),
             _ => None,
         }
     }
@@ -532,13 +539,14 @@ impl Family for PlFam {
         PlM {
             l: cfg.objs.iter().map(|_| Lk::new()).collect(),
             sel: cfg.sel,
+            allow: cfg.allow,
         }
     }
 
     fn m_step(m: &PlM, t: usize, op: &PlOp, phase: u8, strict: bool) -> Steps {
         let t = t as u8;
-        let f7 = weak() && m.sel & 1 != 0;
-        let f8 = weak() && m.sel & 2 != 0;
+        let f7 = m.allow & 1 != 0 || (weak() && m.sel & 1 != 0);
+        let f8 = m.allow & 2 != 0 || (weak() && m.sel & 2 != 0);
         let mut n = m.clone();
         let i = op.obj();
         match op {
@@ -634,14 +642,16 @@ impl Family for PlFam {
                         if x.slot.is_none() && x.uq.is_empty() {
                             x.slot = Some(t);
                             vec![MStep::Cont(n, 1)]
-                        } else if f7 {
-                            // F7: waits for the slot like a fresh upgradable request
-                            x.uq.push(t);
-                            vec![MStep::Cont(n, 2)]
                         } else {
                             // contract: a downgrade never waits (the writer excludes every other
                             // upgradable *holder*; a mere request holding the slot does not count)
-                            vec![MStep::Cont(n, 1)]
+                            let mut out = vec![MStep::Cont(n.clone(), 1)];
+                            if f7 {
+                                // F7: waits for the slot like a fresh upgradable request
+                                n.l[i].uq.push(t);
+                                out.push(MStep::Cont(n, 2));
+                            }
+                            out
                         }
                     }
                     2 => {
@@ -665,24 +675,27 @@ impl Family for PlFam {
                 match phase {
                     0 => {
                         assert_eq!(x.upg, Some(t), "ill-formed program");
-                        if f8 {
+                        let mut out = Vec::new();
+                        if f8 && !x.q.is_empty() {
                             // F8: behind everything that is already waiting
-                            x.q.push((t, QK::UpWait));
-                        } else {
-                            // contract: the upgrade waits for current shared holders only
-                            x.q.insert(0, (t, QK::UpWait));
+                            let mut n2 = n.clone();
+                            n2.l[i].q.push((t, QK::UpWaitBack));
+                            out.push(MStep::Cont(n2, 1));
                         }
-                        vec![MStep::Cont(n, 1)]
+                        // contract: the upgrade waits for current shared holders only
+                        n.l[i].q.insert(0, (t, QK::UpWait));
+                        out.push(MStep::Cont(n, 1));
+                        out
                     }
                     1 => {
                         for e in x.q.iter_mut() {
                             if e.0 == t {
+                                if e.1 == QK::UpWaitBack {
+                                    // F8: the upgrader's own shared access is given up while it waits
+                                    x.upg = None;
+                                }
                                 e.1 = QK::Up;
                             }
-                        }
-                        if f8 {
-                            // F8: the upgrader's own shared access is given up while it waits
-                            x.upg = None;
                         }
                         x.pump();
                         vec![MStep::Cont(n, 2)]
@@ -756,6 +769,11 @@ impl Family for PlFam {
                     if matches!(op, PlOp::Unlock(_) | PlOp::UnlockFair(_)) && x.u == Some(t) {
                         x.u = None;
                     }
+                    // copy of a two-conversion program whose reference admits F8 (reported by the
+                    // other copy): the upgrader gives up its shared access while it waits
+                    if p.cfg.allow & 2 != 0 && matches!(op, PlOp::Upgrade(_)) && x.u == Some(t) {
+                        x.u = None;
+                    }
                 }
                 EKind::Ret(GRes::R(r)) => {
                     let got = match r {
@@ -790,7 +808,8 @@ impl Family for PlFam {
                         }
                         PlOp::Upgrade(_) | PlOp::TryUpgrade(_) => {
                             if got.is_some() {
-                                if x.w.is_some() || !x.r.is_empty() || x.u != Some(t) {
+                                let had = x.u == Some(t) || (p.cfg.allow & 2 != 0 && matches!(op, PlOp::Upgrade(_)) && x.u.is_none());
+                                if x.w.is_some() || !x.r.is_empty() || !had {
                                     return bad("upgraded to exclusive access", x);
                                 }
                                 x.u = None;
@@ -987,7 +1006,9 @@ fn personalise(ops: &[PlOp], t: usize) -> Vec<PlOp> {
         .collect()
 }
 
-fn mk(objs: &[Kind], main: &[PlOp], children: &[&Vec<PlOp>]) -> Program<PlFam> {
+/// One program, or two copies of it when it contains both conversions with a recorded finding
+/// (see `PlCfg::allow`).
+fn mk(objs: &[Kind], main: &[PlOp], children: &[&Vec<PlOp>]) -> Vec<Program<PlFam>> {
     let all = main.iter().chain(children.iter().flat_map(|c| c.iter()));
     let mut sel = 0u8;
     for o in all {
@@ -997,8 +1018,14 @@ fn mk(objs: &[Kind], main: &[PlOp], children: &[&Vec<PlOp>]) -> Program<PlFam> {
             _ => {}
         }
     }
-    let cfg = PlCfg { objs: objs.to_vec(), sel };
-    Program::fork_join(cfg, personalise(main, 0), children.iter().enumerate().map(|(i, c)| personalise(c, i + 1)).collect())
+    let variants: Vec<(u8, u8)> = if sel == 3 { vec![(1, 2), (2, 1)] } else { vec![(sel, 0)] };
+    variants
+        .into_iter()
+        .map(|(sel, allow)| {
+            let cfg = PlCfg { objs: objs.to_vec(), sel, allow };
+            Program::fork_join(cfg, personalise(main, 0), children.iter().enumerate().map(|(i, c)| personalise(c, i + 1)).collect())
+        })
+        .collect()
 }
 
 fn touches_all(objs: &[Kind], s: &[PlOp]) -> bool {
@@ -1048,7 +1075,7 @@ pub fn program_set(set: &str) -> Vec<Program<PlFam>> {
             if thorough && a.len() + b.len() > 6 {
                 continue;
             }
-            out.push(mk(&rw, &[], &[a, b]));
+            out.extend(mk(&rw, &[], &[a, b]));
         }
     }
     // A2: three parties on one RwLock (main takes part): queue order, upgrade/downgrade against two others
@@ -1079,7 +1106,7 @@ pub fn program_set(set: &str) -> Vec<Program<PlFam>> {
                 if !thorough && m.len() == 3 && !(matches!(a[0], PlOp::Write(_)) != matches!(b[0], PlOp::Write(_))) {
                     continue;
                 }
-                out.push(mk(&rw, m, &[a, b]));
+                out.extend(mk(&rw, m, &[a, b]));
             }
         }
     }
@@ -1087,14 +1114,14 @@ pub fn program_set(set: &str) -> Vec<Program<PlFam>> {
     {
         let seqs = thread_seqs(&mx, if thorough { 4 } else { 3 }, full);
         for idx in nondecreasing_tuples(seqs.len(), 2) {
-            out.push(mk(&mx, &[], &[&seqs[idx[0]], &seqs[idx[1]]]));
+            out.extend(mk(&mx, &[], &[&seqs[idx[0]], &seqs[idx[1]]]));
         }
         let s2 = thread_seqs(&mx, 2, full);
         for idx in nondecreasing_tuples(s2.len(), 3) {
             if idx.iter().map(|i| s2[*i].len()).sum::<usize>() > if thorough { 5 } else { 4 } {
                 continue;
             }
-            out.push(mk(&mx, &[], &[&s2[idx[0]], &s2[idx[1]], &s2[idx[2]]]));
+            out.extend(mk(&mx, &[], &[&s2[idx[0]], &s2[idx[1]], &s2[idx[2]]]));
         }
     }
     // A4: two locks (lock order cycles, independence)
@@ -1120,7 +1147,7 @@ pub fn program_set(set: &str) -> Vec<Program<PlFam>> {
                 // a body with a conversion against every two-operation body
                 for a in &seqs {
                     for b in &plain {
-                        out.push(mk(objs, &[], &[a, b]));
+                        out.extend(mk(objs, &[], &[a, b]));
                     }
                 }
             } else {
@@ -1129,7 +1156,12 @@ pub fn program_set(set: &str) -> Vec<Program<PlFam>> {
                     if a.len() + b.len() > if thorough { 5 } else { 4 } {
                         continue;
                     }
-                    out.push(mk(objs, &[], &[a, b]));
+                    // two locks of the same kind: programs that differ only by renaming the locks
+                    // are the same program — keep the one whose first body starts on lock 0
+                    if objs[0] == objs[1] && a[0].obj() != 0 {
+                        continue;
+                    }
+                    out.extend(mk(objs, &[], &[a, b]));
                 }
             }
         }
@@ -1151,7 +1183,7 @@ pub fn program_set(set: &str) -> Vec<Program<PlFam>> {
                 if !thorough && !(b.len() == 1 || matches!(b[1], PlOp::Unlock(_))) {
                     continue;
                 }
-                out.push(mk(&rw, &[], &[a, b]));
+                out.extend(mk(&rw, &[], &[a, b]));
             }
         }
     }
@@ -1162,7 +1194,7 @@ pub fn program_set(set: &str) -> Vec<Program<PlFam>> {
             if idx.iter().map(|i| s2[*i].len()).sum::<usize>() > 4 {
                 continue;
             }
-            out.push(mk(&rw, &[], &[&s2[idx[0]], &s2[idx[1]], &s2[idx[2]]]));
+            out.extend(mk(&rw, &[], &[&s2[idx[0]], &s2[idx[1]], &s2[idx[2]]]));
         }
     }
     out.sort_by_key(|p| p.size());
